@@ -52,6 +52,8 @@ pub struct StepObs {
     pub new_log: Vec<LogEntry>,
     pub roots_done: Option<BTreeMap<RootId, bool>>,
     pub reentered: bool,
+    /// a directly held command said `is_done()` and then still handed out an effect or event
+    pub done_with_pending: Option<String>,
 }
 
 #[derive(Clone, Copy, Debug, Default, PartialEq, Eq)]
@@ -286,7 +288,7 @@ impl<Ef: SimEffect> Host for StreamHost<Ef> {
         effects.sort();
         let new_log = self.app.log[self.log_seen..].to_vec();
         self.log_seen = self.app.log.len();
-        StepObs { effects, new_log, roots_done: None, reentered: self.app.reentered }
+        StepObs { effects, new_log, roots_done: None, reentered: self.app.reentered, done_with_pending: None }
     }
     fn full_log(&mut self) -> Vec<LogEntry> {
         self.app.log.clone()
@@ -320,6 +322,7 @@ pub struct DirectHost<Ef: SimEffect> {
     runs: u32,
     log_seen: usize,
     pending_effects: Vec<EffectDesc>,
+    settles: u32,
 }
 
 impl<Ef: SimEffect> DirectHost<Ef> {
@@ -331,6 +334,7 @@ impl<Ef: SimEffect> DirectHost<Ef> {
             runs: 0,
             log_seen: 0,
             pending_effects: vec![],
+            settles: 0,
         }
     }
 
@@ -374,13 +378,24 @@ impl<Ef: SimEffect> Host for DirectHost<Ef> {
     }
     fn settle(&mut self) -> StepObs {
         let mut effects = std::mem::take(&mut self.pending_effects);
+        // every other settle the command is asked `is_done()` *before* its outputs are collected (a
+        // driver loop `while !cmd.is_done() { .. }` does that): a command that says done must have
+        // nothing left to hand out
+        self.settles += 1;
+        let ask_first = self.settles % 2 == 0;
+        let mut done_with_pending = None;
         loop {
             let mut events = vec![];
-            for (_, c) in self.roots.iter_mut() {
+            for (id, c) in self.roots.iter_mut() {
                 if let Some(c) = c {
+                    let said_done = ask_first && c.is_done();
                     let effs: Vec<Ef> = c.effects().collect();
+                    let evs: Vec<Event> = c.events().collect();
+                    if said_done && (!effs.is_empty() || !evs.is_empty()) && done_with_pending.is_none() {
+                        done_with_pending = Some(format!("{id:?}: is_done() was true, then {} effect(s) and {} event(s) came out", effs.len(), evs.len()));
+                    }
                     self.shelf.absorb(effs, &mut effects);
-                    events.extend(c.events());
+                    events.extend(evs);
                 }
             }
             if events.is_empty() {
@@ -397,7 +412,7 @@ impl<Ef: SimEffect> Host for DirectHost<Ef> {
         let new_log = self.app.log[self.log_seen..].to_vec();
         self.log_seen = self.app.log.len();
         effects.sort();
-        StepObs { effects, new_log, roots_done: Some(done), reentered: self.app.reentered }
+        StepObs { effects, new_log, roots_done: Some(done), reentered: self.app.reentered, done_with_pending }
     }
     fn full_log(&mut self) -> Vec<LogEntry> {
         self.app.log.clone()
@@ -541,7 +556,7 @@ where
             }
             None => (vec![], false),
         };
-        StepObs { effects, new_log, roots_done: None, reentered }
+        StepObs { effects, new_log, roots_done: None, reentered, done_with_pending: None }
     }
     fn full_log(&mut self) -> Vec<LogEntry> {
         self.core.as_ref().map(|c| c.view().log).unwrap_or_default()
@@ -911,7 +926,7 @@ where
                 (vec![], false)
             }
         };
-        StepObs { effects, new_log, roots_done: None, reentered }
+        StepObs { effects, new_log, roots_done: None, reentered, done_with_pending: None }
     }
     fn full_log(&mut self) -> Vec<LogEntry> {
         self.bridge.view().ok().and_then(|b| decode::<View>(self.wire, &b).ok()).map(|v| v.log).unwrap_or_default()
